@@ -960,7 +960,25 @@ from ..selftest import fire, silent      # noqa: E402
 DE = 'xdoctest/doctest_example.py'
 PA = 'xdoctest/parser.py'
 US = 'xdoctest/utils/util_stream.py'
+_COMPILE_BLOCK = ("                    self._partfilename = '<doctest:' + self.node + '>'\n                    source_text = part.compilable_source()\n\n"
+                  "                    code = compile(\n                        source_text, mode=part.compile_mode,\n                        filename=self._partfilename,\n"
+                  "                        flags=compileflags, dont_inherit=True\n                    )\n")
+_COMPILE_HELPER = ("    def _compile_part(self, part, compileflags):\n        self._partfilename = '<doctest:' + self.node + '>'\n        source_text = part.compilable_source()\n"
+                   "        code = compile(source_text, mode=part.compile_mode, filename=self._partfilename, flags=compileflags, dont_inherit=True)\n        return code\n\n")
+_EXEC_BLOCK = ("                            elif part.compile_mode == 'eval':\n                                got_eval = eval(code, test_globals)\n"
+               "                            else:\n                                exec(code, test_globals)\n")
+_EXEC_HELPER_OK = ("    def _run_plain(self, part, code, test_globals):\n        if part.compile_mode == 'eval':\n            return eval(code, test_globals)\n"
+                   "        exec(code, test_globals)\n        return constants.NOT_EVALED\n\n")
 VARIANTS = [
+    silent('compile-step-extracted-into-a-method',
+           ('xdoctest/doctest_example.py', _COMPILE_BLOCK, "                    code = self._compile_part(part, compileflags)\n"),
+           ('xdoctest/doctest_example.py', "    def anything_ran(self):\n", _COMPILE_HELPER + "    def anything_ran(self):\n")),
+    silent('plain-execution-extracted-into-a-method',
+           ('xdoctest/doctest_example.py', _EXEC_BLOCK, "                            else:\n                                got_eval = self._run_plain(part, code, test_globals)\n"),
+           ('xdoctest/doctest_example.py', "    def anything_ran(self):\n", _EXEC_HELPER_OK + "    def anything_ran(self):\n")),
+    fire('extracted-executor-skips-the-coroutine-dispatch', 'C01.R4',
+         ('xdoctest/doctest_example.py', "                            if code.co_flags & CO_COROUTINE == CO_COROUTINE:\n", "                            if part.compile_mode == 'single':\n                                got_eval = self._run_plain(part, code, test_globals)\n                            elif code.co_flags & CO_COROUTINE == CO_COROUTINE:\n"),
+         ('xdoctest/doctest_example.py', "    def anything_ran(self):\n", _EXEC_HELPER_OK + "    def anything_ran(self):\n")),
     fire('single-mode-chunks-not-cut', 'C01.R9', ('xdoctest/parser.py', "            if want_lines and mode_hint in {'eval', 'single'}:\n", "            if want_lines and mode_hint == 'eval':\n")),
     silent('cut-for-every-non-exec-hint', ('xdoctest/parser.py', "            if want_lines and mode_hint in {'eval', 'single'}:\n", "            if want_lines and mode_hint != 'exec':\n")),
     fire('decorator-line-added-not-replacing', 'C01.R7', (PA, "                else:\n                    lineno = node.lineno - 1\n                ps1_linenos.append(lineno)\n", "                    ps1_linenos.append(lineno)\n                lineno = node.lineno - 1\n                ps1_linenos.append(lineno)\n")),
